@@ -689,6 +689,28 @@ func validateV2Siacoins(ms *MidState, txn types.V2Transaction) error {
 		}
 	}
 
+	// NOTE: the value of an ephemeral parent spent below the
+	// EphemeralOutputHeight is not checked against the output it claims to
+	// be, so the input side (unlike the output side) is not covered by
+	// validateV2CurrencyOverflow and must be summed with overflow checks.
+	var inputOverflow types.Currency
+	for _, sci := range txn.SiacoinInputs {
+		var overflow bool
+		if inputOverflow, overflow = inputOverflow.AddWithOverflow(sci.Parent.SiacoinOutput.Value); overflow {
+			return errors.New("siacoin inputs overflow")
+		}
+	}
+	for _, fcr := range txn.FileContractResolutions {
+		if r, ok := fcr.Resolution.(*types.V2FileContractRenewal); ok {
+			for _, c := range []types.Currency{r.RenterRollover, r.HostRollover} {
+				var overflow bool
+				if inputOverflow, overflow = inputOverflow.AddWithOverflow(c); overflow {
+					return errors.New("siacoin inputs overflow")
+				}
+			}
+		}
+	}
+
 	var inputSum, outputSum types.Currency
 	for _, sci := range txn.SiacoinInputs {
 		inputSum = inputSum.Add(sci.Parent.SiacoinOutput.Value)
